@@ -596,7 +596,7 @@ def _worker(args):
     return [(h,) + run_history(model, h) for h in hists]
 
 
-@rule("SV", ["C06", "C10", "C09", "C11"], "structs with dynamic fields and arrays of them: after every history of {update, field/item assignment, copy, refused assignment} every kept handle agrees with a fresh view, reads the expected values, and nothing outside the target changed")
+@rule("SV", ["C06", "C10", "C09", "C11", "C03"], "structs with dynamic fields and arrays of them: after every history of {update, field/item assignment, copy, refused assignment} every kept handle agrees with a fresh view, reads the expected values, and nothing outside the target changed")
 def sv(cx):
     m = cx.m
     for _mod in ('struct', 'array', 'string', 'scalar', 'typeutils'):
@@ -647,9 +647,10 @@ def sv(cx):
 
 
 
-@rule("SVo", ["C10", "C03"], "the same histories with a whole-value update applied through ANOTHER handle of the object: the older handle still locates every part where a fresh view does, reads the expected values, and nothing outside the target changed")
+@rule("SVo", ["C10", "C03", "C06"], "the same histories with a whole-value update applied through ANOTHER handle of the object: the older handle still locates every part where a fresh view does, reads the expected values, and nothing outside the target changed")
 def svo(cx):
-    """C10 and C03 quantify over operations "through randomly chosen handles/views" / "through any handle".  A handle
+    """C10 and C03 quantify over operations "through randomly chosen handles/views" / "through any handle"; C06 says that
+    a write through the handle or the view "is seen through the other" (a whole-value update is a write).  A handle
     caches layout words (the positions of dynamically sized fields, the item offset table); an update of equal total
     size but another split of the parts, applied through a second handle, rewrites those words in the buffer.  Every
     history <normal operation>* ; <update through a view> of length <= 2 (thorough: 3) is evaluated and the kept (older)
